@@ -500,4 +500,320 @@ theorem tally_init (seed : List Comp) (id : Comp) : tally (St.init seed) id = Ta
 theorem Tally.zero_add (a : Tally) : Tally.zero.add a = a := by
   cases a; simp [Tally.add, Tally.zero]
 
+/-! ### classification of one rule, whole runs, the formatter filter (helpers of Props/C12) -/
+
+/-- what the theorems below assume about the two infrastructure classes -/
+structure WFCfg (cfg : Cfg) : Prop where
+  skip_type : cfg.skipCls.rtype = some sSkip
+  skip_nokey : cfg.skipCls.keyName = none
+  none_type : cfg.noneCls.rtype = some sNoneT
+  none_key : ∃ kn, cfg.noneCls.keyName = some kn ∧ kn ≠ sType
+  none_key_ok : cfg.noneKey ≠ []
+
+theorem valid_iff (c : RClass) (key : PyVal) (kwargs : Dict) :
+    Valid c key kwargs ↔
+      ¬ (c.rtype = none ∨ hasKey sType kwargs = true ∨
+          ∃ kn, c.keyName = some kn ∧ (hasKey kn kwargs = true ∨ ¬ ∃ s, key = .str s ∧ s ≠ [])) := by
+  constructor
+  · rintro ⟨h1, h2, h3⟩ h
+    rcases h with h | h | ⟨kn, hk, h⟩
+    · simp [h] at h1
+    · simp [h2] at h
+    · obtain ⟨a, b, d⟩ := h3 kn hk
+      rcases h with h | h
+      · simp [a] at h
+      · exact h ((key_ok_iff key).mp ⟨b, d⟩)
+  · intro h
+    simp only [not_or, not_exists, not_and] at h
+    obtain ⟨h1, h2, h3⟩ := h
+    refine ⟨?_, by simpa using h2, ?_⟩
+    · cases hr : c.rtype with
+      | none => exact absurd hr h1
+      | some t => rfl
+    · intro kn hk
+      have := h3 kn hk
+      refine ⟨by simpa using this.1, ?_⟩
+      have hk' : ∃ s, key = .str s ∧ s ≠ [] := by
+        by_cases hh : ∃ s, key = .str s ∧ s ≠ []
+        · exact hh
+        · exact absurd hh (by simpa using this.2)
+      exact (key_ok_iff key).mpr hk'
+
+theorem observeKind_ne_nothing (resp : Resp) : observeKind resp ≠ .nothing := by
+  unfold observeKind
+  repeat' split
+  all_goals simp
+
+theorem observeKind_ne_exception (resp : Resp) (es : List Exc) : observeKind resp ≠ .exception es := by
+  unfold observeKind
+  repeat' split
+  all_goals simp
+
+theorem ofMk_ne_skipped (x : Except VErr Resp) (pre : List Exc) : ofMk x ≠ .skipped pre := by
+  cases x <;> simp [ofMk]
+
+theorem invoke_skipped_nil_iff (env : Env) (r : Rule) : invoke env r = .skipped [] ↔ r.act = .raise .skip := by
+  unfold invoke
+  cases ha : r.act with
+  | ret c key kwargs => simp [ofMk_ne_skipped]
+  | retNone => simp [ofMk_ne_skipped]
+  | retOther => simp
+  | raise e => cases e <;> simp
+
+theorem process_ignored (env : Env) (present : List Comp) (r : Rule) (h : ignored present r = true) :
+    process env present r = .skipped [] := by
+  simp [process, h]
+
+theorem process_missing (env : Env) (present : List Comp) (r : Rule) (m : Missing) (h : ignored present r = false)
+    (hm : missingDeps present r = some m) :
+    process env present r = ofMk (mkResp env.limit env.cfg.skipCls .none (skipKwargs env r m)) := by
+  simp [process, h, hm]
+
+theorem process_invoked' (env : Env) (present : List Comp) (r : Rule) (h : ignored present r = false)
+    (hm : missingDeps present r = none) : process env present r = invoke env r := by
+  simp [process, h, hm]
+
+theorem process_skipped_nil_iff (env : Env) (present : List Comp) (r : Rule) :
+    process env present r = .skipped [] ↔
+      (ignored present r = true ∨ (missingDeps present r = none ∧ r.act = .raise .skip)) := by
+  cases hi : ignored present r with
+  | true => simp [process_ignored env present r hi]
+  | false =>
+    cases hm : missingDeps present r with
+    | some m => simp [process_missing env present r m hi hm, ofMk_ne_skipped]
+    | none => simp [process_invoked' env present r hi hm, invoke_skipped_nil_iff]
+
+theorem classify_enabled (env : Env) (present : List Comp) (r : Rule) (h : r.enabled = true) :
+    classify env present r = finalOfProc env (process env present r) := by
+  simp [classify, h]
+
+/-- the body ran: the rule is enabled, not ignored and has what it requires -/
+def Invoked (present : List Comp) (r : Rule) : Prop :=
+  r.enabled = true ∧ ignored present r = false ∧ missingDeps present r = none
+
+theorem classify_invoked (env : Env) (present : List Comp) (r : Rule) (h : Invoked present r) :
+    classify env present r = finalOfProc env (invoke env r) := by
+  rw [classify_enabled env present r h.1, process_invoked' env present r h.2.1 h.2.2]
+
+theorem observeKind_built_typed (limit : Nat) (c : RClass) (t : Str) (key : PyVal) (kwargs : Dict)
+    (hty : hasKey sType kwargs = false) (h1 : t ≠ sSkip) (h2 : t ≠ sMetadata) (h3 : t ≠ sMetadataKey) :
+    observeKind (built limit c t key kwargs) = .entry t (built limit c t key kwargs) := by
+  unfold observeKind
+  rw [built_type limit c t key kwargs hty]
+  simp [h1, h2, h3]
+
+theorem none_valid (cfg : Cfg) (h : WFCfg cfg) : Valid cfg.noneCls (.str cfg.noneKey) [] := by
+  refine ⟨by simp [h.none_type], by simp [hasKey], ?_⟩
+  intro kn _
+  refine ⟨by simp [hasKey], ?_, rfl⟩
+  have := h.none_key_ok
+  cases hk : cfg.noneKey with
+  | nil => exact absurd hk this
+  | cons a b => simp [PyVal.truthy]
+
+theorem skipKwargs_no_type (env : Env) (r : Rule) (m : Missing) : hasKey sType (skipKwargs env r m) = false := by
+  simp only [hasKey, skipKwargs, List.any_cons, List.any_nil]
+  decide
+
+theorem skip_valid (env : Env) (r : Rule) (m : Missing) (h : WFCfg env.cfg) :
+    Valid env.cfg.skipCls .none (skipKwargs env r m) := by
+  refine ⟨by simp [h.skip_type], skipKwargs_no_type env r m, ?_⟩
+  intro kn hk
+  rw [h.skip_nokey] at hk
+  cases hk
+
+theorem observeKind_built_skip (limit : Nat) (c : RClass) (key : PyVal) (kwargs : Dict)
+    (hty : hasKey sType kwargs = false) :
+    observeKind (built limit c sSkip key kwargs) = .skipEntry (built limit c sSkip key kwargs) := by
+  unfold observeKind
+  rw [built_type limit c sSkip key kwargs hty]
+  simp
+
+theorem observeKind_built_not_skip (limit : Nat) (c : RClass) (t : Str) (key : PyVal) (kwargs : Dict)
+    (hty : hasKey sType kwargs = false) (hne : t ≠ sSkip) (resp : Resp) :
+    observeKind (built limit c t key kwargs) ≠ .skipEntry resp := by
+  unfold observeKind
+  rw [built_type limit c t key kwargs hty]
+  simp only [hne, if_false]
+  repeat' split
+  all_goals simp
+
+theorem invoke_not_skipEntry (env : Env) (r : Rule) (hc : WFCfg env.cfg)
+    (hact : ∀ c key kwargs, r.act = .ret c key kwargs → c.rtype ≠ some sSkip) (resp : Resp) :
+    finalOfProc env (invoke env r) ≠ .skipEntry resp := by
+  unfold invoke
+  cases ha : r.act with
+  | ret c key kwargs =>
+    simp only
+    cases ht : c.rtype with
+    | none => simp [mkResp, ht, ofMk, finalOfProc]
+    | some t =>
+      by_cases hv : Valid c key kwargs
+      · rw [mkResp_of_valid env.limit c t key kwargs ht hv]
+        simp only [ofMk, finalOfProc]
+        have hne : t ≠ sSkip := by
+          intro heq; exact hact c key kwargs ha (by rw [ht, heq])
+        exact observeKind_built_not_skip _ _ _ _ _ hv.2.1 hne resp
+      · obtain ⟨e, he⟩ := mkResp_error_of_invalid env.limit c key kwargs hv
+        simp [he, ofMk, finalOfProc]
+  | retNone =>
+    simp only
+    rw [mkResp_of_valid env.limit env.cfg.noneCls sNoneT _ [] hc.none_type (none_valid env.cfg hc)]
+    simp only [ofMk, finalOfProc]
+    exact observeKind_built_not_skip _ _ _ _ _ (by simp [hasKey]) (by decide) resp
+  | retOther => simp [finalOfProc]
+  | raise e => cases e <;> simp [finalOfProc] <;> split <;> simp
+
+theorem observeKind_built_mdk (limit : Nat) (c : RClass) (kn k : Str) (v : PyVal)
+    (ht : c.rtype = some sMetadataKey) (hex : c.exempt = true) (hk : c.keyName = some kn)
+    (hne : kn ≠ sType) (hnv : kn ≠ sValue) :
+    observeKind (built limit c sMetadataKey (.str k) [(sValue, v)]) =
+      .metadataKey (built limit c sMetadataKey (.str k) [(sValue, v)]) k v := by
+  have e1 : sValue ≠ sType := by decide
+  have hty : hasKey sType [(sValue, v)] = false := by simp [hasKey, e1]
+  have hkn : hasKey kn [(sValue, v)] = false := by simp [hasKey, Ne.symm hnv]
+  have hval : lookup sValue (built limit c sMetadataKey (.str k) [(sValue, v)]).fields = some v := by
+    simp only [built, hex, Bool.not_true, Bool.false_and, Bool.false_eq_true, if_false, List.cons_append, lookup,
+      if_true]
+  unfold observeKind
+  rw [built_type _ _ _ _ _ hty, built_getKey _ _ _ _ _ kn hk hne hkn, hval]
+  simp [mdk_ne_skip, mdk_ne_md]
+
+theorem init_present (seed : List Comp) : (St.init seed).present = seed := by
+  induction seed with
+  | nil => rfl
+  | cons a rest ih => simp only [St.init, St.present, List.map_cons, List.map_map] at ih ⊢; rw [ih]
+
+/-- `run` is "apply each rule's outcome, in order" -/
+theorem run_eq (env : Env) (seed : List Comp) (rules : List Rule) (h : Fresh seed rules) :
+    run env seed rules = applyAll (St.init seed) (finals env seed rules) := by
+  unfold run
+  have := foldl_step_eq env rules (St.init seed) (by rw [init_present]; exact h)
+  rw [init_present] at this
+  exact this
+
+theorem finals_nodup (env : Env) (seed : List Comp) (rules : List Rule) (h : Fresh seed rules) :
+    ((finals env seed rules).map (·.1.id)).Nodup := by
+  have h3 : ((finals env seed rules).map (·.1)).map (·.id) = rules.map (·.id) := by rw [finals_map_fst]
+  rw [List.map_map] at h3
+  have h2 : (finals env seed rules).map (·.1.id) = rules.map (·.id) := h3
+  rw [h2]; exact h.1
+
+theorem finals_mem_classify (env : Env) (present : List Comp) (rules : List Rule) (r : Rule) (f : Final)
+    (h : (r, f) ∈ finals env present rules) : ∃ p, f = classify env p r := by
+  induction rules generalizing present with
+  | nil => cases h
+  | cons r' rs ih =>
+    simp only [finals, List.mem_cons] at h
+    rcases h with h | h
+    · cases h; exact ⟨present, rfl⟩
+    · exact ih _ h
+
+def dropMd : Top → Top
+  | .system _ => .system none
+  | v => v
+
+theorem lookup_popMetadata (h : Str) (r : Report) :
+    lookup h (popMetadata r) = if h = sSystem then (lookup h r).map dropMd else lookup h r := by
+  induction r with
+  | nil => simp [popMetadata, lookup]
+  | cons kv rest ih =>
+    obtain ⟨k, v⟩ := kv
+    by_cases hk : k = sSystem
+    · subst hk
+      by_cases hh : h = sSystem
+      · subst hh; cases v <;> simp [popMetadata, lookup, dropMd]
+      · simp [popMetadata, lookup, hh, Ne.symm hh]
+    · by_cases hh : k = h
+      · subst hh; simp [popMetadata, lookup, hk]
+      · simp only [popMetadata, hk, if_false, lookup, hh]
+        exact ih
+
+theorem lookup_condErase (b : Bool) (k h : Str) (d : Report) :
+    lookup h (condErase b k d) = if b = true ∧ h = k then none else lookup h d := by
+  cases b <;> simp [condErase, lookup_erase]
+
+theorem lookup_condPop (b : Bool) (h : Str) (d : Report) :
+    lookup h (condPop b d) = if b = true ∧ h = sSystem then (lookup h d).map dropMd else lookup h d := by
+  cases b <;> simp [condPop, lookup_popMetadata]
+
+/-! ### get_response -/
+
+abbrev keysOf {α : Type} (d : List (Str × α)) : List Str := d.map (·.1)
+
+theorem keysOf_appendAt {α : Type} (k : Str) (e : α) (d : List (Str × List α)) :
+    keysOf (appendAt k e d) = if k ∈ keysOf d then keysOf d else keysOf d ++ [k] := by
+  induction d with
+  | nil => simp [appendAt]
+  | cons kv rest ih =>
+    obtain ⟨k', es⟩ := kv
+    by_cases h : k' = k
+    · subst h; simp [appendAt]
+    · have h' : ¬ k = k' := fun e => h e.symm
+      simp only [appendAt, h, if_false, List.map_cons, List.mem_cons, h', false_or, ih]
+      split <;> simp_all
+
+theorem nodup_appendAt {α : Type} (k : Str) (e : α) (d : List (Str × List α)) (h : (keysOf d).Nodup) :
+    (keysOf (appendAt k e d)).Nodup := by
+  rw [keysOf_appendAt]
+  split
+  · exact h
+  · rename_i hk
+    exact List.nodup_append.mpr ⟨h, by simp, by intro a ha b hb; simp at hb; subst hb; intro e; exact hk (e ▸ ha)⟩
+
+theorem applyAll_results_nodup (fs : List (Rule × Final)) (st : St) (h : (keysOf st.results).Nodup) :
+    (keysOf (applyAll st fs).results).Nodup := by
+  induction fs generalizing st with
+  | nil => exact h
+  | cons rf rest ih =>
+    obtain ⟨r, f⟩ := rf
+    simp only [applyAll, List.foldl_cons] at ih ⊢
+    apply ih
+    cases f <;> simp only [applyFinal] <;> first | exact h | exact nodup_appendAt _ _ _ h
+
+/-- the loop of get_response over `results` -/
+def addTyped (r : Report) (kv : Str × List Entry) : Report :=
+  if kv.1 = sRule ∨ kv.1 = sFingerprint then r else setKey kv.1 (.entries kv.2) r
+
+theorem lookup_foldl_addTyped (h : Str) (rs : List (Str × List Entry)) (r1 : Report) (hnd : (keysOf rs).Nodup) :
+    lookup h (rs.foldl addTyped r1) =
+      if h ∈ keysOf rs ∧ ¬ (h = sRule ∨ h = sFingerprint) then some (.entries (getList h rs)) else lookup h r1 := by
+  induction rs generalizing r1 with
+  | nil => simp
+  | cons kv rest ih =>
+    obtain ⟨k, es⟩ := kv
+    simp only [List.map_cons, List.nodup_cons] at hnd
+    simp only [List.foldl_cons]
+    rw [ih _ hnd.2]
+    by_cases hk : k = h
+    · subst hk
+      have hnot : ¬ k ∈ keysOf rest := hnd.1
+      by_cases hs : k = sRule ∨ k = sFingerprint
+      · simp [hnot, hs, addTyped]
+      · simp [hnd.1, hs, addTyped, lookup_setKey_self, getList, lookup]
+    · have hk' : ¬ h = k := fun e => hk e.symm
+      have hm : (h ∈ List.map (fun x : Str × List Entry => x.fst) ((k, es) :: rest)) ↔
+          (h ∈ List.map (fun x : Str × List Entry => x.fst) rest) := by simp [hk']
+      by_cases hs : k = sRule ∨ k = sFingerprint
+      · simp only [addTyped, hs, if_true, getList, lookup, hk, if_false, keysOf, hm]
+      · simp only [addTyped, hs, if_false, getList, lookup, hk, keysOf, hm, lookup_setKey_ne _ _ _ _ hk']
+
+
+theorem lookup_getResponse (st : St) (h : Str) (hnd : (keysOf st.results).Nodup) :
+    lookup h (getResponse st) =
+      if h = sAnalysis then some .analysis
+      else if h ∈ keysOf st.results ∧ ¬ (h = sRule ∨ h = sFingerprint) then some (.entries (getList h st.results))
+      else if h = sSkips then some (.skips (st.skips.map (·.2)))
+      else if h = sFingerprints then some (.entries (getList sFingerprint st.results))
+      else if h = sReports then some (.entries (getList sRule st.results))
+      else if h = sSystem then some (.system (some st.metadata))
+      else lookup h (st.mdKeys.map (fun kv => (kv.1, Top.val kv.2))) := by
+  unfold getResponse
+  simp only [lookup_setKey]
+  have : ∀ r1, (st.results.foldl (fun r kv => if kv.1 = sRule ∨ kv.1 = sFingerprint then r else setKey kv.1 (.entries kv.2) r) r1)
+      = st.results.foldl addTyped r1 := fun _ => rfl
+  rw [this, lookup_foldl_addTyped _ _ _ hnd]
+  simp only [lookup_setKey]
+
+
 end IV.Rules
